@@ -217,3 +217,11 @@ mod tests {
         }
     }
 }
+
+/// Verification hook (C32): the raw descriptor word (identity of a descriptor).
+#[cfg(mmtk_verif)]
+impl SpaceDescriptor {
+    pub fn verif_raw(self) -> usize {
+        self.0
+    }
+}
